@@ -1,3 +1,5 @@
+//go:build all || c06 || c08 || c19
+
 package props
 
 import (
@@ -80,22 +82,6 @@ func c06Check(f genFile, loaders []string) (kind, msg, loader string) {
 		}
 	}
 	return "", "ok", ""
-}
-
-func firstDiff(got, want []byte) string {
-	n := len(got)
-	if len(want) < n {
-		n = len(want)
-	}
-	for i := 0; i < n; i++ {
-		if got[i] != want[i] {
-			return fmt.Sprintf("differ from the embedded bytes at offset %d (%#02x vs %#02x)", i, got[i], want[i])
-		}
-	}
-	if len(got) != len(want) {
-		return fmt.Sprintf("equal the embedded bytes only up to offset %d (lengths %d vs %d)", n, len(got), len(want))
-	}
-	return "equal the embedded bytes"
 }
 
 func sizeClass(n int) string {
